@@ -31,3 +31,20 @@ add('C07', 'property-based testing: monitor output sign vs an independent Boolea
     'and re-evaluates the Boolean verdict. Catches sign-convention errors under not/implies and swapped predicate operands.',
     'Trusted: vlib/refsem.py bool_dt (three-valued Boolean evaluator written independently of the robustness reference).',
     'DESIGN.md section 5 C07')
+add('C04', 'property-based testing: dense-time grammar x piecewise-constant grid signals with unaligned break-points against an exact grid reference semantics (Hypothesis)',
+    'Signals and bounds live on a dyadic grid, where the dense semantics reduces exactly to window arithmetic on cells; the returned sample list is read as a '
+    'step function and compared at every cell start, midpoint and output time stamp, plus shape/start/monotone time stamps. Explores the Allen-case merge, '
+    'sliding windows and since/until recursion under nesting; bounded by depth<=4, <=8 samples per variable, bounds<=24 cells.',
+    'Trusted: vlib/refsem.py ct_cells; non-strict since/until as the suite pins; signals start together; t0>0 only with unbounded operators (see DESIGN.md Corrections).',
+    'DESIGN.md section 5 C04')
+add('C17', 'property-based testing: validity predicate over outcomes (normal return / exception type) for generated supported and unsupported specifications per monitor kind (Hypothesis)',
+    'Supported formulas with degenerate but well-formed data (1-sample, surplus/unused variables, permuted inputs) must return normally on all five monitor set-ups; '
+    'an unsupported construct inserted at a random depth must end in RTAMTException at parse/pastify/first evaluation.',
+    'Trusted: the per-kind table of supported operators (from the property text); math-domain faults excluded by construction.',
+    'DESIGN.md section 5 C17')
+add('C03', 'property-based testing: pastified online monitor vs reference semantics on every prefix, with forced siblings of different horizon (Hypothesis)',
+    'For generated bounded-future formulas every update i >= h of the pastified monitor is compared with R-dt(phi, w[0..i])[i-h]; pure-past specifications must be unchanged '
+    'by pastify(); unbounded future must make pastify() raise RTAMTException. One open finding (warm-up of past operators over delayed operands) is stepped around by '
+    'construction and exercised in its own lane.',
+    'Trusted: vlib/refsem.py and the harness horizon function; outputs for i < h are unconstrained.',
+    'DESIGN.md section 5 C03')
